@@ -1,4 +1,6 @@
 mod mux;
+mod read;
+mod tables;
 mod streams;
 mod util;
 
@@ -42,6 +44,27 @@ fn main() {
             let mut out = mux::Out { w: &mut w, events: 0 };
             for c in cases.iter() {
                 mux::run_case(c, &mut out);
+            }
+            let n = out.events;
+            drop(out);
+            w.flush().unwrap();
+            println!("{{\"cases\":{},\"events\":{}}}", cases.len(), n);
+        }
+        "tables-gen" => {
+            let seed: u64 = a[2].parse().unwrap();
+            let n: u64 = a[3].parse().unwrap();
+            let mut w = BufWriter::new(File::create(&a[4]).unwrap());
+            for i in 0..n {
+                serde_json::to_writer(&mut w, &tables::random_tables_case(seed, i)).unwrap();
+                w.write_all(b"\n").unwrap();
+            }
+        }
+        "read-run" => {
+            let cases = read_cases(&a[2]);
+            let mut w = BufWriter::new(File::create(&a[3]).unwrap());
+            let mut out = mux::Out { w: &mut w, events: 0 };
+            for c in cases.iter() {
+                read::run_case(c, &mut out);
             }
             let n = out.events;
             drop(out);
